@@ -430,6 +430,10 @@ def registry():
                         "cache; same load outcome, termination, fault, registers, output and exit code; a text whose uncached run "
                         "performs a word-crossing access must be rejected with the cache on.")
     reg["C03"].components_real = reg["C03"].components_real + LIFE_REAL[:3]
+    reg["C10"].batches += [M.InstructionCacheWalks("icache-policy-walk", 20000, 300000)]
+    reg["C10"].rule += (" memsim batch icache-policy-walk: the same spy-driven policy model on the instruction-cache system (fetch streams, "
+                        "reloads, reset() - a fresh policy state is expected afterwards), in a third of the runs on the cache system the "
+                        "architectural state builds from the front end's option objects next to a data cache with the other policy.")
     reg["C12"].batches += [P.Programs("pipe-dcache", 15000, 250000, force={"dc_on": True, "ic_on": False})]
     reg["C12"].rule += (" pipesim batch pipe-dcache: the histories that programs issue - at the end of every program, in each pipeline mode, "
                         "backing memory and resident blocks of the run with the cache against the flat memory of the run without it.")
